@@ -16,7 +16,11 @@ VARIABLE c
 \* shape: the consumer's ONLY references to the type: plain_and_vec (a field of the type and a Vec of it) / map_key / map_val /
 \* gen_first / gen_last (first / last argument of a two-parameter generic of the consumer crate) / gen_nested_first: a type that is
 \* mentioned once, anywhere inside a type expression, is used by the file
-Init == c \in { r \in [form : Forms, dir : Dirs, depth : Depths, renamed : BOOLEAN, dup : BOOLEAN, dup_renamed : BOOLEAN, root : Roots, shadow : BOOLEAN, shape : Shapes] :
+\* second_file: the consumer CRATE has a second source file that brings in a type of the third crate in the same way (a glob import
+\* of another crate, a single import): the imports of a generated module are those of all the files of its crate
+Init == c \in { r \in [form : Forms, dir : Dirs, depth : Depths, renamed : BOOLEAN, dup : BOOLEAN, dup_renamed : BOOLEAN, root : Roots, shadow : BOOLEAN, shape : Shapes,
+                        second_file : BOOLEAN] :
+                  /\ r.second_file => (r.form \in {"use_glob", "use_single", "use_group", "qualified"} /\ ~r.dup /\ r.root = "plain" /\ ~r.shadow /\ r.shape = "plain_and_vec")
                   /\ r.shape # "plain_and_vec" => (r.form \in {"use_single", "use_group", "qualified", "use_glob"} /\ r.depth = "lib" /\ ~r.dup /\ r.root = "plain" /\ ~r.shadow /\ r.dir = "alpha")
                   /\ r.shadow => (~r.dup /\ r.root = "plain" /\ r.depth = "lib")
                   /\ r.dup_renamed => r.dup
